@@ -184,7 +184,10 @@ class SqlalchemyRender:
                     raise NotImplementedError(f'Required list argument for: {op}')
 
             method = methods.get(op)
-            if method is not None:
+            if op == '+' and any(isinstance(arg.type, sa.String) for arg in (arg0, arg1)):
+                # sqlalchemy turns `+` with a string operand into concatenation (`||`, concat()): keep the operator as written
+                col = arg0.op('+')(arg1)
+            elif method is not None:
                 sa_op = getattr(arg0, method)
 
                 col = sa_op(arg1)
